@@ -65,4 +65,5 @@ b7-10 C13 C01
 b7-11 C06 C18
 b7-12 C10
 b7-13 C15
+b8-1 C01 C13
 LIST
